@@ -318,7 +318,7 @@ func TestC08(t *testing.T) {
 				rec.Class(fmt.Sprintf("%s:bad:decode_rejected", era))
 			} else {
 				rec.Class(fmt.Sprintf("%s:clean:decode_rejected", era))
-				rec.Class(fmt.Sprintf("clean_decode_rejected:%.80s", err))
+				rec.Class("clean_decode_rejected:" + errClass(err))
 			}
 			return
 		}
@@ -328,13 +328,13 @@ func TestC08(t *testing.T) {
 				rec.Class(fmt.Sprintf("%s:clean:accepted", era))
 			} else {
 				rec.Class(fmt.Sprintf("%s:clean:rejected", era))
-				rec.Class(fmt.Sprintf("clean_rejected:%s:%.90s", fam, verr))
+				rec.Class(fmt.Sprintf("clean_rejected:%s:%s", fam, errClass(verr)))
 			}
 			return
 		}
 		if verr != nil {
 			rec.Class(fmt.Sprintf("%s:bad:validation_rejected", era))
-			rec.Class(fmt.Sprintf("bad_rejected_by:%s:conserving=%v", fam, conserving))
+			rec.Class(fmt.Sprintf("bad_rejected:%s:conserving=%v:%s", fam, conserving, errClass(verr)))
 			return
 		}
 		rec.Class(fmt.Sprintf("%s:bad:ACCEPTED", era))
